@@ -1,0 +1,38 @@
+//go:build verif
+
+package cpu65c816
+
+// VerifSharedStateDigest hashes every package-level variable of this package
+// (opcode table without the func pointers, the four cycle tables, the
+// disassembler's padding array). Verification hook: compiled only with -tags verif.
+func VerifSharedStateDigest() uint64 {
+	h := uint64(1469598103934665603)
+	mix := func(b byte) {
+		h ^= uint64(b)
+		h *= 1099511628211
+	}
+	for i := range instructions {
+		ins := &instructions[i]
+		mix(ins.opcode)
+		for j := 0; j < len(ins.name); j++ {
+			mix(ins.name[j])
+		}
+		mix(ins.mode)
+		mix(ins.size)
+		mix(ins.cycles)
+		if ins.proc == nil {
+			mix(0)
+		} else {
+			mix(1)
+		}
+	}
+	for _, t := range [][256]byte{decCycles_flagM, decCycles_flagX, incCycles_regDL_not00, incCycles_PageCross} {
+		for _, b := range t {
+			mix(b)
+		}
+	}
+	for _, b := range spaces {
+		mix(b)
+	}
+	return h
+}
